@@ -1,4 +1,5 @@
 import Hannibal.Props.C06Current
+import Hannibal.Props.C06Guarded
 #print axioms Hannibal.C06_holds
 #print axioms Hannibal.C06_current
 #print axioms Hannibal.wellWired06_current
@@ -7,3 +8,5 @@ import Hannibal.Props.C06Current
 #print axioms Hannibal.C06s_current
 #print axioms Hannibal.C06q_holds
 #print axioms Hannibal.C06q_current
+#print axioms Hannibal.C06r_holds
+#print axioms Hannibal.C06g_holds
